@@ -923,6 +923,13 @@ def correspondence(ctx):
                     md_meta.append({"family": fam, "rule": "MoveDim", "path": rec["path"], "observed": rec["observed"], "program": text})
                     ctx.histogram["rewrite-MoveDim"] = ctx.histogram.get("rewrite-MoveDim", 0) + 1
                     nrec += 1
+                    if not rec["observed"].lstrip("(").startswith("RMin"):
+                        # ... and the IR surgery of the (guarded) model must produce the real result
+                        mpath = rec["path"][:-1]
+                        cases.append(f"({rec['before'][0]}, {rec['before'][1]}, (RMoveDim {nat(rec['path'][-1])}), "
+                                     f"{coqlist(nat(x) for x in mpath)}, {rec['after'][1]})")
+                        meta.append({"family": fam, "rule": "MoveDim-surgery", "path": rec["path"], "observed": rec["observed"], "program": text})
+                        ctx.histogram["rewrite-MoveDim-surgery"] = ctx.histogram.get("rewrite-MoveDim-surgery", 0) + 1
                 continue
             rule, mpath = model_loc(rec["rule"], rec["path"])
             args, b = rec["before"]
